@@ -340,10 +340,12 @@ M("C05", "twin-update-weights-keyword-reinit", GRM, "        self.__init__(start
   "        mode = self.expansion_depthing\n        self.__init__(starting_symbol, considered_subtypes=nodes, expansion_depthing=mode)\n", "", expect="silent")
 M("C05", "usable-grammar-dataclass-before-alternatives", GRM, "            if c in self.alternatives:\n                for k in self.alternatives[c]:\n                    add(k)\n            elif is_dataclass(c):",
   "            if is_dataclass(c) and c not in [bool, int, str, float, list, tuple]:\n                for _, k in get_arguments(c):\n                    add(strip_annotations(k))\n            elif c in self.alternatives:\n                for k in self.alternatives[c]:\n                    add(k)\n            elif is_dataclass(c):", "C05.R1")
-M("C05", "update-weights-indexes-every-supplied-class", GRM, "            if node in weights:  # a supplied class the starting symbol does not reach has no normalised weight\n                node.__dict__[\"__gengy__\"][\"weight\"] = weights[node]\n",
-  "            node.__dict__[\"__gengy__\"][\"weight\"] = weights[node]\n", "C05.R5")
-M("C05", "twin-update-weights-get", GRM, "            if node in weights:  # a supplied class the starting symbol does not reach has no normalised weight\n                node.__dict__[\"__gengy__\"][\"weight\"] = weights[node]\n",
-  "            w = weights.get(node)\n            if w is not None:\n                node.__dict__[\"__gengy__\"][\"weight\"] = w\n", "", expect="silent")
+M("C05", "update-weights-indexes-every-supplied-class", GRM, "            if node in weights:  # a supplied class the starting symbol does not reach has no normalised weight\n                # through the accessor: usable_grammar also supplies the built-in field types, which carry no metadata\n                get_gengy(node)[\"weight\"] = weights[node]\n",
+  "            get_gengy(node)[\"weight\"] = weights[node]\n", "C05.R5")
+M("C05", "update-weights-namespace-lookup", GRM, "            if node in weights:  # a supplied class the starting symbol does not reach has no normalised weight\n                # through the accessor: usable_grammar also supplies the built-in field types, which carry no metadata\n                get_gengy(node)[\"weight\"] = weights[node]\n",
+  "            if node in weights:\n                node.__dict__[\"__gengy__\"][\"weight\"] = weights[node]\n", "C05.R5")
+M("C05", "twin-update-weights-get", GRM, "            if node in weights:  # a supplied class the starting symbol does not reach has no normalised weight\n                # through the accessor: usable_grammar also supplies the built-in field types, which carry no metadata\n                get_gengy(node)[\"weight\"] = weights[node]\n",
+  "            w = weights.get(node)\n            if w is not None:\n                get_gengy(node)[\"weight\"] = w\n", "", expect="silent")
 M("C05", "reachability-through-strip-annotations", GRM, "            for prod in explode_generics(dsts):", "            for prod in map(strip_annotations, dsts):", "C05.R1")
 
 # ------------------------------------------------------------------------------------- C06
